@@ -40,11 +40,14 @@ func run(seed int64, n int, dir string, _ []string) {
 	dml.NestedCorpus(g, o, root)
 	// corpus: the STDIN table as the target of every statement kind, for every seed
 	dml.StdinCorpus(g, o, root)
+	// corpus: columns addressed by number (t.N) after DROP / ADD / RENAME of non-last columns, for every seed
+	dml.NumberRefCorpus(g, o, root)
 
 	stmts := 0
 	for seq := 0; stmts < n; seq++ {
 		r := dml.NewSequence(g, o, root, seq, false, 400)
 		r.Wraps = 25
+		r.NumRefs = 20
 		if seq == 0 {
 			// corpus: pre-finding F4 (REPLACE appended the unmatched rows in map order) always runs first
 			if st := r.ReplaceWitness(); st != nil {
